@@ -169,8 +169,8 @@ def _base_point_is_vertex(a, b, c, d, pos, cshape):
 
 def post_harmonic(ctx, call):
     a, b, c = call.args[:3]
-    if not all(S._is_tensor(o) for o in (a, b, c)) or a.shape[-1] < 3:
-        return  # harmonic_set constructs on the line through a and b: needs dimension >= 2
+    if not all(S._is_tensor(o) for o in (a, b, c)) or a.shape[-1] < 2:
+        return
     if call.exc is not None:
         # three distinct collinear points always have a harmonic conjugate: a raise is a violation
         try:
@@ -297,7 +297,7 @@ def g_points(ctx, rng, i):
             Pc = [g.Point((ac + z * bc) * gen.pick(rng, [1, 1j, -1, 1 + 1j])) for z in zs]
             _try(g.crossratio, *Pc)
             _try(g.crossratio, Pc[1], Pc[0], Pc[3], Pc[2])
-            if n >= 3:
+            if True:
                 _try(g.harmonic_set, Pc[0], Pc[1], Pc[2])
                 _try(g.harmonic_set, Pc[2], Pc[0], Pc[3])
             if n >= 3:
